@@ -107,7 +107,7 @@ func judge(c *Case) (sig, detail string) {
 }
 
 func TestScopingPrograms(t *testing.T) {
-	vt.Check(t, vt.N(6000, 150000), func(rt *rapid.T) {
+	vt.Check(t, vt.N(6000, 600000), func(rt *rapid.T) {
 		g := &G{r: rnd{rt}}
 		prog := g.genProgram()
 		lines := make([]string, len(prog))
